@@ -1,6 +1,6 @@
 (* C04, liveness clause: a termination measure for the scheduler.
    Phi c U s = sum over the nodes x of  W(x) * (2 * |todo x| + |doing x|)
-   (sets counted inside a finite universe U of targets), W(x) = B ^ (H - level x),
+   (sets counted inside a finite universe U of targets), W(x) = B ^ (H - depth x), depth x = number of ancestors of x,
    B = 2 * |U| * N + 1.  A dispatch (with or without a refused run id) moves units
    from todo to doing: Phi drops by W(x) >= 1 per released unit.  A reply for a
    unit the scheduler counts as executing removes it from doing (- W(x)) and, on
@@ -127,9 +127,13 @@ Proof.
 Qed.
 
 (* ---- the measure ---- *)
-Definition Hc (c : cfg) : nat := S (fold_right Nat.max 0 (map lvl (gnodes c))).
+(* the depth of a node: the number of its ancestors (the `level` attribute of
+   dag.Node.graph is the depth of the FIRST visit, not a topological depth: a node
+   can carry the level of one of its ancestors) *)
+Definition rk (c : cfg) (x : node) : nat := length (anc (gi c x)).
+Definition Hc (c : cfg) : nat := S (fold_right Nat.max 0 (map (fun g => length (anc g)) (gnodes c))).
 Definition Bc (c : cfg) (U : list tgt) : nat := 2 * length U * nnodes c + 1.
-Definition Wt (c : cfg) (U : list tgt) (x : node) : nat := Bc c U ^ (Hc c - lvl (gi c x)).
+Definition Wt (c : cfg) (U : list tgt) (x : node) : nat := Bc c U ^ (Hc c - rk c x).
 Definition cto (U : list tgt) (s : state) (x : node) : nat := cnt U (todo (getn (ns s) x)).
 Definition cdo (U : list tgt) (s : state) (x : node) : nat := cnt U (doing (getn (ns s) x)).
 Definition pot (c : cfg) (U : list tgt) (s : state) (x : node) : nat :=
@@ -139,10 +143,11 @@ Definition Phi (c : cfg) (U : list tgt) (s : state) : nat := sumf (pot c U s) (s
 Definition nrel (c : cfg) (U : list tgt) (s s' : state) : nat :=
   sumf (fun x => cdo U s' x - cdo U s x) (seq 0 (nnodes c)).
 
-Lemma lvl_lt_Hc c x : x < nnodes c -> lvl (gi c x) < Hc c.
+Lemma rk_lt_Hc c x : x < nnodes c -> rk c x < Hc c.
 Proof.
-  intros L. unfold Hc, gi, nnodes in *.
-  assert (G : forall l n, n < length l -> lvl (nth n l dflt_ginfo) <= fold_right Nat.max 0 (map lvl l)).
+  intros L. unfold Hc, rk, gi, nnodes in *.
+  assert (G : forall l n, n < length l ->
+            length (anc (nth n l dflt_ginfo)) <= fold_right Nat.max 0 (map (fun g => length (anc g)) l)).
   { induction l as [|a l IH]; intros [|n] Ln; cbn in *; try lia. specialize (IH n ltac:(lia)). lia. }
   specialize (G _ _ L). lia.
 Qed.
@@ -244,30 +249,30 @@ Proof.
       cbn [pz todo] in H. apply In_rem in H. tauto.
 Qed.
 
-(* ---- the level hypothesis: children are deeper, ancestors are shallower ---- *)
-Definition lvl_okb (c : cfg) : bool :=
-  forallb (fun x => forallb (fun y => lvl (gi c x) <? lvl (gi c y)) (kids (gi c x))
-                    && forallb (fun a => lvl (gi c a) <? lvl (gi c x)) (anc (gi c x)))
+(* ---- the depth hypothesis: children have more ancestors, ancestors fewer ---- *)
+Definition depth_okb (c : cfg) : bool :=
+  forallb (fun x => forallb (fun y => rk c x <? rk c y) (kids (gi c x))
+                    && forallb (fun a => rk c a <? rk c x) (anc (gi c x)))
           (seq 0 (nnodes c)).
 
-Lemma lvl_ok_kids c x y : lvl_okb c = true -> x < nnodes c -> In y (kids (gi c x)) ->
-  lvl (gi c x) < lvl (gi c y).
+Lemma depth_ok_kids c x y : depth_okb c = true -> x < nnodes c -> In y (kids (gi c x)) ->
+  rk c x < rk c y.
 Proof.
-  intros H L K. unfold lvl_okb in H. rewrite forallb_forall in H.
+  intros H L K. unfold depth_okb in H. rewrite forallb_forall in H.
   specialize (H x ltac:(apply in_seq; lia)). apply andb_true_iff in H. destruct H as [H _].
   rewrite forallb_forall in H. apply Nat.ltb_lt. apply H. exact K.
 Qed.
 
-Lemma lvl_ok_anc c x a : lvl_okb c = true -> x < nnodes c -> In a (anc (gi c x)) ->
-  lvl (gi c a) < lvl (gi c x).
+Lemma depth_ok_anc c x a : depth_okb c = true -> x < nnodes c -> In a (anc (gi c x)) ->
+  rk c a < rk c x.
 Proof.
-  intros H L K. unfold lvl_okb in H. rewrite forallb_forall in H.
+  intros H L K. unfold depth_okb in H. rewrite forallb_forall in H.
   specialize (H x ltac:(apply in_seq; lia)). apply andb_true_iff in H. destruct H as [_ H].
   rewrite forallb_forall in H. apply Nat.ltb_lt. apply H. exact K.
 Qed.
 
 (* ---- a reply for a unit the scheduler counts as executing: Phi drops ---- *)
-Lemma rep_measure c U x t r o vs s : length (ns s) = nnodes c -> gfb c = [] -> lvl_okb c = true ->
+Lemma rep_measure c U x t r o vs s : length (ns s) = nnodes c -> gfb c = [] -> depth_okb c = true ->
   I_que c s -> In t (doing (getn (ns s) x)) -> In t U ->
   let s' := fst (res c x t r o vs s) in
   Phi c U s' + 1 <= Phi c U s /\ (forall y, cdo U s' y <= cdo U s y).
@@ -282,10 +287,10 @@ Proof.
   set (s' := fst (res c x t r o vs s)) in *.
   assert (CD : forall y, cdo U s' y <= cdo U s y) by (intros y; apply cnt_mono; apply R1).
   split; [|exact CD].
-  set (k := Bc c U ^ (Hc c - lvl (gi c x) - 1)).
+  set (k := Bc c U ^ (Hc c - rk c x - 1)).
   assert (Kpos : 1 <= k) by (apply pow_pos; apply Bc_pos).
   assert (Wx : Wt c U x = Bc c U * k).
-  { unfold Wt, k. pose proof (lvl_lt_Hc c x Lx).
+  { unfold Wt, k. pose proof (rk_lt_Hc c x Lx).
     assert (G : forall b n, 1 <= n -> b ^ n = b * b ^ (n - 1)).
     { intros b [|n] Hn; [lia|]. cbn [Nat.pow]. replace (S n - 1) with n by lia. reflexivity. }
     apply G. lia. }
@@ -305,7 +310,7 @@ Proof.
       + assert (T1 : cto U s' y <= length U) by apply cnt_le.
         assert (Wy : Wt c U y <= k).
         { unfold Wt, k. apply Nat.pow_le_mono_r; [pose proof (Bc_pos c U); lia|].
-          pose proof (lvl_ok_kids c x y Hlv Lx K). lia. }
+          pose proof (depth_ok_kids c x y Hlv Lx K). lia. }
         assert (A1 : Wt c U y * (2 * cto U s' y + cdo U s' y) <=
                      Wt c U y * (2 * length U) + Wt c U y * cdo U s y) by nia.
         assert (A2 : Wt c U y * (2 * length U) <= k * (2 * length U)) by (apply Nat.mul_le_mono_r; exact Wy).
@@ -355,7 +360,7 @@ Fixpoint releases (c : cfg) (U : list tgt) (s : state) (xs : list xev) : nat :=
 Definition is_rep (x : xev) : bool := match x with Ev (Rep _ _ _ _ _ _) => true | _ => false end.
 Definition replies (xs : list xev) : nat := length (filter is_rep xs).
 
-Lemma quiet_step c U s x : GInv c s -> gfb c = [] -> lvl_okb c = true -> quiet U s x ->
+Lemma quiet_step c U s x : GInv c s -> gfb c = [] -> depth_okb c = true -> quiet U s x ->
   let s' := fst (xstep c s x) in
   Phi c U s' + nrel c U s s' + (if is_rep x then 1 else 0) <= Phi c U s.
 Proof.
@@ -383,7 +388,7 @@ Qed.
    refused run ids), replies for units the scheduler counts as executing, and
    worker / flag events -- no request, no rebuild -- the number of released units
    plus the number of replies is bounded by the measure of the starting state *)
-Theorem quiesce_bound c U : gfb c = [] -> lvl_okb c = true -> forall xs s,
+Theorem quiesce_bound c U : gfb c = [] -> depth_okb c = true -> forall xs s,
   GInv c s -> quiet_run c U s xs ->
   Phi c U (xrun c s xs) + releases c U s xs + replies xs <= Phi c U s.
 Proof.
@@ -405,7 +410,7 @@ Proof.
 Qed.
 
 (* ---- at rest: nothing executing and a dispatch releases nothing => idle ---- *)
-Theorem quiesce_idle c s : GInv c s -> lvl_okb c = true ->
+Theorem quiesce_idle c s : GInv c s -> depth_okb c = true ->
   active s = true -> paused s = false ->
   J_que s ->                                              (* no stale queue entry *)
   (forall x, doing (getn (ns s) x) = []) ->               (* nothing executing *)
@@ -413,19 +418,19 @@ Theorem quiesce_idle c s : GInv c s -> lvl_okb c = true ->
   (forall x, todo (getn (ns s) x) = []) /\ que s = [] /\ view_todo s = [] /\ view_doing s = [].
 Proof.
   intros G Hlv A P J D0 D1.
-  assert (T0 : forall n x, lvl (gi c x) < n -> todo (getn (ns s) x) = []).
+  assert (T0 : forall n x, rk c x < n -> todo (getn (ns s) x) = []).
   { induction n as [|n IH]; intros x L; [lia|].
     destruct (Nat.lt_ge_cases x (nnodes c)) as [Lx|Lx].
     2:{ destruct G as (Hl & _). rewrite <- Hl in Lx. rewrite (getn_oob _ _ Lx). reflexivity. }
     destruct (todo (getn (ns s) x)) as [|t td] eqn:E; [reflexivity|]. exfalso.
     assert (AI : forall a, In a (anc (gi c x)) -> todo (getn (ns s) a) = [] /\ doing (getn (ns s) a) = []).
-    { intros a Ha. split; [|apply D0]. apply IH. pose proof (lvl_ok_anc c x a Hlv Lx Ha). lia. }
+    { intros a Ha. split; [|apply D0]. apply IH. pose proof (depth_ok_anc c x a Hlv Lx Ha). lia. }
     destruct (tick_progress_G c s x t G A P Lx) as (_ & H & _).
     - rewrite E. left. reflexivity.
     - rewrite D0. intros [].
     - intros a Ha. destruct (AI a Ha) as [E1 E2]. rewrite E1, E2. repeat split; intros [].
     - intros _ a Ha Hq. destruct (AI a Ha) as [E1 E2]. destruct (J a Hq) as [N|N]; congruence.
     - cbn zeta in H. rewrite D1 in H. contradiction. }
-  assert (T : forall x, todo (getn (ns s) x) = []) by (intros x; apply (T0 (S (lvl (gi c x)))); lia).
+  assert (T : forall x, todo (getn (ns s) x) = []) by (intros x; apply (T0 (S (rk c x))); lia).
   split; [exact T|]. apply idle_empty; [exact J|]. intros x. split; [apply T|apply D0].
 Qed.
